@@ -39,7 +39,9 @@ ASSUMPTIONS = [
 NONVACUITY = ["pairs_compiled", "remaining_glyphs_compared", "glyphs_referencing_skipped",
               "nested_skip_chains", "mirrored_refs_to_skipped", "kerning_pairs_compared",
               "mark_pairs_compared", "skipped_group_members", "arg_overrides_lib", "ttf_cases",
-              "otf_cases", "skipped_absent_checked"]
+              "otf_cases", "skipped_absent_checked", "varsparse_cases",
+              "var_location_renderings_compared", "var_refs_to_sparse_skipped",
+              "var_nested_refs_to_sparse_skipped"]
 
 
 def n_cases(tier):
@@ -50,8 +52,143 @@ def budget_s(tier):
     return 150 if tier == "quick" else 1500
 
 
+# ---------------------------------------------------------------- sparse-master designspaces
+
+def _poly(rng, n, curve):
+    """A closed n-gon around a random centre as point specs; optionally one cubic segment."""
+    import math
+    cx, cy, r = rng.randint(100, 400), rng.randint(100, 500), rng.randint(60, 200)
+    pts = []
+    for i in range(n):
+        a = 2 * math.pi * i / n
+        pts.append([int(cx + r * math.cos(a)) + rng.randint(-15, 15),
+                    int(cy + r * math.sin(a)) + rng.randint(-15, 15), "line"])
+    if curve == "curve":
+        # replace the segment that ends at point 1 by a cubic
+        (x0, y0), (x1, y1) = pts[0][:2], pts[1][:2]
+        pts[1][2] = "curve"
+        pts[1:1] = [[x0 + (x1 - x0) // 3 + 9, y0 + (y1 - y0) // 3 + 7, None],
+                    [x0 + 2 * (x1 - x0) // 3 + 9, y0 + 2 * (y1 - y0) // 3 + 7, None]]
+    elif curve == "qcurve":
+        (x0, y0), (x1, y1) = pts[0][:2], pts[1][:2]
+        pts[1][2] = "qcurve"
+        pts[1:1] = [[(x0 + x1) // 2 + 11, (y0 + y1) // 2 + 13, None]]
+    return pts
+
+
+def _shift(contours, rng, lo, hi):
+    out = copy.deepcopy(contours)
+    for c in out:
+        for p in c:
+            p[0] += rng.randint(lo, hi)
+            p[1] += rng.randint(lo, hi)
+    return out
+
+
+def gen_varsparse(rng, fmt, lib):
+    """2 full masters (wght 100, 900) + sparse layer masters at 300/500/700 holding non-linear
+    drawings of some leaf glyphs (and non-linear component offsets of some middle glyphs); glyph
+    graph leaf <- middle (<- middle2) <- top with constant 2x2 parts; the skip list is drawn from
+    leaves and middles, favouring whole chains."""
+    curve = "curve" if fmt == "otf" else "qcurve"
+    g0, g1, layers = [], [], {300: [], 500: [], 700: []}
+
+    def add(name, contours0, contours1, comps0, comps1, width, unicodes=()):
+        g0.append({"name": name, "width": width, "unicodes": list(unicodes),
+                   "contours": contours0, "components": comps0, "anchors": []})
+        g1.append({"name": name, "width": width + rng.choice([0, 40]), "unicodes": list(unicodes),
+                   "contours": contours1, "components": comps1, "anchors": []})
+
+    leaves, middles = [], []
+    for i in range(rng.randint(1, 3)):
+        name = "_leaf%d" % i
+        c0 = [_poly(rng, rng.randint(3, 6), rng.choice([None, None, curve]))]
+        c1 = _shift(c0, rng, -40, 60)
+        add(name, c0, c1, [], [], 500)
+        leaves.append(name)
+        if rng.random() < 0.75:
+            loc = rng.choice([300, 500, 700])
+            t = (loc - 100) / 800.0
+            mid = copy.deepcopy(c0)
+            for c, cc1 in zip(mid, c1):
+                for p, q in zip(c, cc1):
+                    bump_ = rng.choice([-1, 1]) * rng.randint(30, 90)
+                    p[0] = int(round(p[0] + t * (q[0] - p[0]))) + bump_
+                    p[1] = int(round(p[1] + t * (q[1] - p[1]))) + rng.randint(-40, 40)
+            layers[loc].append({"name": name, "width": 500 + rng.choice([0, 30]), "unicodes": [],
+                                "contours": mid, "components": [], "anchors": []})
+
+    def comp(base):
+        sc = rng.choice([1, 1, 1, 0.5, 2])
+        t0 = [sc, 0, 0, sc, rng.randint(-100, 300), rng.randint(-100, 200)]
+        t1 = [sc, 0, 0, sc, t0[4] + rng.randint(-60, 60), t0[5] + rng.randint(-60, 60)]
+        return {"base": base, "t": t0}, {"base": base, "t": t1}
+
+    for i in range(rng.randint(1, 3)):
+        name = "_mid%d" % i
+        pool = leaves + (middles if rng.random() < 0.5 else [])
+        cs = [comp(rng.choice(pool)) for _ in range(rng.randint(1, 2))]
+        add(name, [], [], [a for a, _ in cs], [b for _, b in cs], 500)
+        middles.append(name)
+        if rng.random() < 0.25:
+            loc = rng.choice([300, 500, 700])
+            cm = []
+            for a, b in cs:
+                t = (loc - 100) / 800.0
+                cm.append({"base": a["base"], "t": a["t"][:4] + [
+                    int(round(a["t"][4] + t * (b["t"][4] - a["t"][4]))) + rng.choice([-70, 55]),
+                    int(round(a["t"][5] + t * (b["t"][5] - a["t"][5])))]})
+            layers[loc].append({"name": name, "width": 500, "unicodes": [], "contours": [],
+                                "components": cm, "anchors": []})
+    tops = []
+    for i, (name, cp) in enumerate([("A", 0x41), ("B", 0x42), ("C", 0x43)][:rng.randint(2, 3)]):
+        pool = middles * 2 + leaves
+        cs = [comp(rng.choice(pool)) for _ in range(rng.randint(1, 2))]
+        own0 = [_poly(rng, 4, None)] if rng.random() < 0.3 else []
+        own1 = _shift(own0, rng, -20, 20)
+        add(name, own0, own1, [a for a, _ in cs], [b for _, b in cs], 600, [cp])
+        tops.append(name)
+    c0 = [_poly(rng, 5, curve)]
+    add("plain", c0, _shift(c0, rng, -30, 30), [], [], 450, [0x44])
+    if rng.random() < 0.5:
+        g0.insert(0, {"name": ".notdef", "width": 500, "unicodes": [], "contours": [],
+                      "components": [], "anchors": []})
+        g1.insert(0, copy.deepcopy(g0[0]))
+    # skip list: whole chains preferred
+    by = {g["name"]: g for g in g0}
+    skip = set()
+    start = rng.choice(middles)
+    skip.add(start)
+    if rng.random() < 0.8:
+        skip |= closure_refs(by, start)
+    for n in leaves + middles:
+        if rng.random() < 0.25:
+            skip.add(n)
+    info = {"unitsPerEm": 1000, "familyName": "T", "styleName": "L", "ascender": 800,
+            "descender": -200}
+    u0 = {"glyphs": g0, "kerning": [], "groups": {}, "lib": {}, "info": info,
+          "features": "languagesystem DFLT dflt;\n",
+          "layers": {"L%d" % loc: gl for loc, gl in layers.items() if gl}}
+    u1 = {"glyphs": g1, "kerning": [], "groups": {}, "lib": {},
+          "info": dict(info, styleName="B"), "features": "languagesystem DFLT dflt;\n"}
+    sources = [{"ufo": 0, "location": {"Weight": 100}, "name": "m100"}]
+    for loc, gl in sorted(layers.items()):
+        if gl:
+            sources.append({"ufo": 0, "location": {"Weight": loc}, "name": "s%d" % loc,
+                            "layerName": "L%d" % loc})
+    sources.append({"ufo": 1, "location": {"Weight": 900}, "name": "m900"})
+    ds = {"axes": [{"name": "Weight", "tag": "wght", "min": 100, "default": 100, "max": 900}],
+          "ufos": [u0, u1], "sources": sources}
+    return {"stratum": "varsparse", "fmt": fmt, "lib": lib, "skip": sorted(skip),
+            "delivery": "dslib", "decoy": [], "ds": ds,
+            "sparse": {str(loc): [g["name"] for g in gl] for loc, gl in layers.items() if gl},
+            "ufo": u0}
+
+
 def gen(rng, idx, tier):
     fmt = rng.choice(["otf", "otf", "ttf"])
+    if rng.random() < 0.12:
+        return gen_varsparse(rng, rng.choice(["otf", "ttf"]), rng.choice(["defcon", "ufoLib2"]))
     kinds = ("line", "curve", "qcurve") if fmt == "otf" else ("line", "qcurve")
     mode = rng.choice(["mixed", "dyadic", "int"])
     glyphs = bounded_font(rng, mode, kinds=kinds, tmode="tt", allow_degenerate=False,
@@ -266,6 +403,124 @@ def match_tt(a, b, any_direction=False):
     return None
 
 
+def loc_render(tt, name, loc):
+    """Contours [(points [(x, y, kind)], 0.0, False)] of a glyph of a variable font at a user
+    location, composites resolved by fontTools' glyph set (trusted reader)."""
+    from fontTools.pens.recordingPen import DecomposingRecordingPen
+    gs = tt.getGlyphSet(location=loc)
+    rec = DecomposingRecordingPen(gs)
+    gs[name].draw(rec)
+    out, cur = [], None
+    for op, args in rec.value:
+        if op == "moveTo":
+            cur = [(args[0][0], args[0][1], "on")]
+        elif op == "lineTo":
+            cur.append((args[0][0], args[0][1], "on"))
+        elif op == "qCurveTo":
+            for p in args[:-1]:
+                cur.append((p[0], p[1], "q"))
+            if args[-1] is not None:
+                cur.append((args[-1][0], args[-1][1], "on"))
+        elif op == "curveTo":
+            for p in args[:-1]:
+                cur.append((p[0], p[1], "c"))
+            cur.append((args[-1][0], args[-1][1], "on"))
+        elif op in ("closePath", "endPath"):
+            if cur:
+                if len(cur) > 1 and cur[-1] == cur[0]:
+                    cur.pop()
+                out.append((cur, 0.0, False))
+            cur = None
+    return out, gs[name].width
+
+
+LOCATIONS = [100, 200, 300, 400, 500, 600, 700, 800, 900]
+
+
+def run_varsparse(case):
+    """Variable font compiled with and without the designspace's skip list, both read back at
+    nine axis positions (all master and sparse-master positions and the positions between them)."""
+    import ufo2ft
+    from fontTools.ttLib import TTFont
+    counters = {"varsparse_cases": 1}
+
+    def bump(k, n=1):
+        counters[k] = counters.get(k, 0) + n
+
+    skip = set(case["skip"])
+    glyphs = {g["name"]: g for g in case["ds"]["ufos"][0]["glyphs"]}
+    refs = {n: closure_refs(glyphs, n) for n in glyphs}
+    sparse_names = {n for names in case["sparse"].values() for n in names}
+    fonts = []
+    for with_skip in (False, True):
+        ds = copy.deepcopy(case["ds"])
+        ds["lib"] = {"public.skipExportGlyphs": sorted(skip)} if with_skip else {}
+        try:
+            doc, _ = build_designspace(ds, case["lib"])
+            f = ufo2ft.compileVariableCFF2 if case["fmt"] == "otf" else ufo2ft.compileVariableTTF
+            tt = f(doc, useProductionNames=False)
+            buf = io.BytesIO()
+            tt.save(buf)
+            fonts.append(TTFont(io.BytesIO(buf.getvalue())))
+        except Exception:  # noqa: BLE001
+            if not with_skip:
+                return {"status": "inconclusive", "counters": {"noskip_compile_failed": 1},
+                        "note": traceback.format_exc()[-1500:]}
+            return {"status": "violated", "counters": counters, "violations": [
+                {"mech": "skip_compile_exception",
+                 "detail": {"trace": traceback.format_exc()[-2500:]}}]}
+    t0, t1 = fonts
+    bump("pairs_compiled")
+    bump("ttf_cases" if case["fmt"] == "ttf" else "otf_cases")
+    violations = []
+    o0, o1 = t0.getGlyphOrder(), t1.getGlyphOrder()
+    bump("skipped_absent_checked")
+    if [n for n in o1 if n in skip]:
+        violations.append({"mech": "skipped_glyph_in_order",
+                           "detail": {"glyphs": [n for n in o1 if n in skip]}})
+    if o1 != [n for n in o0 if n not in skip]:
+        violations.append({"mech": "relative_order_changed", "detail": {"plain": o0, "skip": o1}})
+        return {"status": "violated", "violations": violations, "counters": counters}
+    c0 = {cp: n for cp, n in t0.getBestCmap().items() if n not in skip}
+    if c0 != dict(t1.getBestCmap()):
+        violations.append({"mech": "cmap_changed_for_remaining", "detail": {}})
+    nontrivial = False
+    for n in o1:
+        if n not in glyphs:
+            continue
+        hit = refs[n] & skip
+        if hit:
+            bump("glyphs_referencing_skipped")
+            direct = {c["base"] for c in glyphs[n]["components"]}
+            if hit - direct:
+                bump("nested_skip_chains")
+            if hit & sparse_names:
+                bump("var_refs_to_sparse_skipped")
+                nontrivial = True
+                if (hit & sparse_names) - direct:
+                    bump("var_nested_refs_to_sparse_skipped")
+        for w in LOCATIONS:
+            a, wa = loc_render(t0, n, {"wght": w})
+            b, wb = loc_render(t1, n, {"wght": w})
+            bump("var_location_renderings_compared")
+            bump("remaining_glyphs_compared")
+            if abs(wa - wb) > 1.0:
+                violations.append({"mech": "var_advance_changed", "detail": {
+                    "glyph": n, "wght": w, "plain": wa, "skip": wb}})
+            # each compile rounds every master's coordinates once (<= 1/2 each); offsets of
+            # nested references are rounded per level in the composite form
+            why = match_tt([(p, 1.25, False) for p, _e, _m in a], [(p, 1.25, False) for p, _e, _m in b])
+            if why:
+                violations.append({"mech": "var_rendering_changed", "detail": {
+                    "glyph": n, "wght": w, "why": why, "references_skipped": sorted(hit),
+                    "sparse_masters": case["sparse"],
+                    "plain": str([[(round(x, 2), round(y, 2)) for x, y, _k in p] for p, _e, _m in a])[:600],
+                    "skip": str([[(round(x, 2), round(y, 2)) for x, y, _k in p] for p, _e, _m in b])[:600]}})
+                break
+    return {"status": "violated" if violations else "held", "violations": violations[:10],
+            "counters": counters, "nontrivial": nontrivial}
+
+
 def closure_refs(glyphs, name, seen=None):
     seen = seen if seen is not None else set()
     for c in glyphs[name].get("components", []):
@@ -281,6 +536,8 @@ def run(case):
     def bump(k, n=1):
         counters[k] = counters.get(k, 0) + n
 
+    if case["stratum"] == "varsparse":
+        return run_varsparse(case)
     spec = case["ufo"]
     skip = set(case["skip"])
     glyphs = {g["name"]: g for g in spec["glyphs"]}
